@@ -58,6 +58,8 @@ def main():
             print(f"HARNESS-ERROR property={pid} shard {e['shard']} crashed:\n{e['traceback']}")
         sys.exit(2)
 
+    if hasattr(mod, 'finalize') and not a.only:
+        merged['violations'] += mod.finalize(merged)
     known = findings.known_keys(pid)
     # de-duplicate by key, keep first (smallest shard index)
     uniq = {}
